@@ -239,8 +239,11 @@ def r03_4(ctx, run):
         if f.module.name in ("gaftools.cli.index", "gaftools.cli.view"):
             for c in walk_own(f.node):
                 if isinstance(c, ast.Call) and isinstance(c.func, ast.Attribute) and c.func.attr == "get_path":
-                    kw = {k.arg: const_value(k.value, "?") for k in c.keywords}
-                    mode = kw.get("throw_warning", const_value(c.args[1], "?") if len(c.args) > 1 else "default(True)")
+                    ba = repo.bound_args(f, c)
+                    if ba is None or len(gp.params) < 3:
+                        raise AnalysisError("R03.4", f.where(c), "cannot bind the arguments of the get_path call")
+                    mode_param = gp.params[2]  # (self, contig, <strictness flag>)
+                    mode = const_value(ba.get(mode_param), "?") if ba.get(mode_param) is not None else "?"
                     sites.append((f, c, mode))
     ctx.require_count("R03.4", len(sites), 2, "gaftools/cli", "segment-table builders calling GFA.get_path")
     modes = {str(m) for _, _, m in sites}
